@@ -92,7 +92,8 @@ class Contract:
                 self.free_list.append(s)
         self.tr = Translator(self.frag, free=seen)
         bad = [signame(s) for s in self.free_list if s not in self.tr.undriven and s in self.tr.allsigs]
-        self.free_list = [s for s in self.free_list if s in self.tr.undriven]
+        # declared inputs the design never reads (absent from the fragment) stay inputs: contracts may constrain them
+        self.free_list = [s for s in self.free_list if s in self.tr.undriven or s not in self.tr.allsigs]
         self.driven_declared_free = bad
         self.tr.free = set(self.free_list)
         self.domains = domains or sorted(self.tr.sync.keys()) or ["sys"]
